@@ -138,13 +138,13 @@ PROPS = {
         explanation='exactness proved in both directions under the stated source model'),
 
     'C15': dict(
-        level='other',
-        level_text='Proved (Verus, unbounded, prophecy loop invariant over the split_last_mut cascade): WriterBuilder::block_size clamps to max(1024, size); BlockWriter::current_size_estimate is exactly the uncompressed size of the block; after every Writer::insert that returns, the pending data block and every pending index block more than one level below the root is smaller than the block size (so a block is emitted by the insert that makes it reach B). The "not earlier" direction and the sizes of the emitted blocks are bounded: the independent decoder recomputes, for every emitted block of every scenario file, its size without its final entry (< B) and that non-final blocks are >= B.',
+        level='proof',
+        level_text='Proved (Verus, unbounded, prophecy loop invariants over the split_last_mut cascades): WriterBuilder::block_size clamps to max(1024, size); BlockWriter::current_size_estimate is exactly the uncompressed size of the block (payload + offset table + count); after every Writer::insert that returns, the pending data block and every pending index block more than one level below the root is smaller than the block size (pending_small) -- so a block is emitted by the very insert that makes it reach B; and every block ever emitted (by insert or by the final flush of into_inner) that is a data block or an index block more than one level below the root would be smaller than B without its final entry (log_cut over the ghost block log; the file-level statement file_cut is the postcondition of Writer::into_inner). Independent bounded stand-in: the independent decoder recomputes, for every emitted block of every scenario file, its size without its final entry (< B) and that non-final blocks are >= B.',
         level_note=ASSUME_PHYS + '; ' + ASSUME_DROP,
-        technique='Verus representation invariant on Writer (pending block sizes) + bounded decoder stand-in',
+        technique='Verus representation invariants on Writer (pending block sizes, cut property of the block log) + bounded decoder stand-in',
         kani=[], native=[N('verif_rw::c15_block_cut', '25/67 files, every block at depth >= 2')], witness=[],
-        unproved=['emitted block sizes >= B for non-final blocks (ghost log not built)'], assumptions=[ASSUME_PHYS, ASSUME_DROP],
-        explanation='pending-size invariant proved; emitted sizes bounded'),
+        unproved=[], assumptions=[ASSUME_PHYS, ASSUME_DROP],
+        explanation='pending-size invariant and cut property of every emitted block proved'),
     'C16': dict(
         level='proof',
         level_text='Proved (Verus, unbounded, ghost block-load counter rd_loads incremented only by Block::read_from): opening (Metadata::read_from, Reader::new, ReaderCursor::new) loads no block; each of ReaderCursor first/last/next/prev/>=/== loads at most levels+2 blocks and <= at most 2*(levels+2) (it is a >= followed by prev or last), whatever the file size -- and one IndexBlockCursor move loads at most levels+1 blocks (proved: each level is reloaded at most once per move; IBC.*.loads). Bounded stand-in (independent check): an instrumented source counts absolute seeks (one per block load) per public cursor operation over 900 (4000 thorough) operations per file incl. full sweeps, index depth 0..4; opening reads <= 26 bytes and seeks to no block.',
